@@ -28,11 +28,14 @@
 (* its target f(inputs); it needs Lag updates with an unchanged target to  *)
 (* be there (within tol).  tgt[m] is the target of the last update, lag[m] *)
 (* the number of updates still missing, inc[m] what m certainly contains.  *)
-(* mdiff > tol ("moved") iff the message was not at the new target.  The   *)
-(* code marks the READERS of a moved message, never the message itself:    *)
-(* with local convergence a damped message is left part of the way (known  *)
-(* finding KF-C14-4, configuration MC_damped.cfg must fail); Repair = TRUE *)
-(* also re-marks the moved message (MC_damped_repaired.cfg must pass).     *)
+(* mdiff > tol ("moved") iff the message was not at the new target.  Since *)
+(* "fix: damped messages stay marked for update until they stop moving"    *)
+(* (64891667, KF-C14-4) a moved damped message is marked itself, next to   *)
+(* its readers: Repair = TRUE is the shipped behaviour                     *)
+(* (MC_damped_repaired.cfg must pass).  Repair = FALSE is the code before  *)
+(* that commit, which marked the readers only and left a damped message    *)
+(* part of the way under local convergence: MC_damped.cfg must fail        *)
+(* (self-test of the model, ConvergedExact).                               *)
 (* Lag = 1 is the undamped algorithm: tgt = inc and lag = 0 throughout.    *)
 (***************************************************************************)
 EXTENDS C14_Defs, Json
@@ -42,7 +45,7 @@ CONSTANTS Trees,      \* sequence of [n |-> k, E |-> set of 2-sets over 1..k, hy
           MaxIter,
           SeqMaxUnits,\* sequential sweeps are explored for at most this many scheduling units (pop orders grow fast)
           Lag,        \* 1: no damping; 2: a damped message needs one more update with the same inputs
-          Repair,     \* TRUE: a moved damped message is marked for the next round itself
+          Repair,     \* TRUE (shipped since 64891667): a moved damped message is marked for the next round itself
           Record,     \* TRUE: keep a history for replay (simulation only)
           Bug         \* "none"; self-tests of the model (must violate an invariant):
                       \* "marksrc"   a changed message marks its sender instead of its receiver (tid flavour)
